@@ -6,7 +6,7 @@ EXTENDS Ast, TLC, Json
 Carriers == {"var", "param", "result", "elem"}
 Types == {"int", "str", "list"}
 Uses == {"eqnil", "nenil", "get", "or", "orlit", "unwrap_if", "unwrap_stmt", "unwrap_print",
-         "unwrap_while", "eqval", "getuse", "orchain", "unwrap_nested", "unwrap_twice", "unwrap_nested_twice"}
+         "unwrap_while", "eqval", "getuse", "orchain", "unwrap_nested", "unwrap_twice", "unwrap_nested_twice", "or_closure"}
 Positions == {"stmt", "inif", "inwhile", "infn"}
 
 (* excluded: an int captured by a function literal is refused as a list index by the type   *)
@@ -46,6 +46,15 @@ UseStmts(s) ==
       [] s.use = "nenil" -> <<Print(Bin("!=", E(s), Nil))>>
       [] s.use = "get" -> <<Print(Get(E(s)))>>
       [] s.use = "or" -> <<Print(Or(E(s), Call(V("dflt"), <<>>)))>>
+      \* the fallback of `or` is a variable that the function literal captures and uses nowhere else;
+      \* the function runs after the frame that owned the variable is gone
+      [] s.use = "or_closure" ->
+           <<Let("mkp", Fn("mkp", <<>>, "fn(" \o Opt(s.ty) \o ") -> " \o TyText(s.ty),
+                           <<LetT("dv", TyText(s.ty), Val2(s.ty)),
+                             Ret(Fn("pick", <<P("q", Opt(s.ty))>>, TyText(s.ty), <<Ret(Or(V("q"), V("dv")))>>))>>)),
+             Let("pk", Call(V("mkp"), <<>>)),
+             LetT("held", Opt(s.ty), E(s)),
+             Print(Call(V("pk"), <<V("held")>>))>>
       [] s.use = "orlit" -> <<Print(Or(E(s), Val2(s.ty)))>>
       [] s.use = "orchain" -> <<Print(Or(E(s), Or(E(s), Call(V("dflt"), <<>>))))>>
       [] s.use = "unwrap_if" -> <<DeclW(s), IfElse(UnwrapInto("w", E(s)), <<Print(V("w"))>>, <<Print(S("none"))>>),
